@@ -90,8 +90,24 @@ where
             "get" | "index" => Some(K::make(ev.k as u32)),
             _ => None,
         };
+        // a table lost to a faulted call (e.g. a destructor panic while it was being dropped) is re-created first
+        if ev.op != "new" && ev.op != "with_capacity" && ev.op != "drop" {
+            let mut need = vec![];
+            if self.tabs[ev.t - 1].is_none() {
+                need.push(ev.t);
+            }
+            if ev.u >= 1 && ev.u <= self.tabs.len() && ev.u != ev.t && self.tabs[ev.u - 1].is_none() {
+                need.push(ev.u);
+            }
+            for t in need {
+                let mut e2 = Event::new("new", t);
+                e2.n = (t - 1).min(1) as i64;
+                self.exec(e2, tr);
+            }
+        }
         tr.raw(&format!("{{\"op\":\"begin\",\"name\":\"{}\",\"t\":{},\"k\":{},\"n\":{}}}", ev.op, ev.t, ev.k, ev.n));
         env::begin_window();
+        env::arm(&ev.fa, ev.fk);
         let res = catch_unwind(AssertUnwindSafe(|| self.body(&mut ev, probe.as_ref())));
         match res {
             Ok(()) => {}
@@ -139,11 +155,11 @@ where
         let vv = ev.v as u32;
         match ev.op.as_str() {
             "new" => {
-                self.tabs[t - 1] = None;
+                drop(self.tabs[t - 1].take());
                 self.tabs[t - 1] = Some(HashMap::with_hasher_in(PlanBH { pl: ev.n as u8 }, CheckingAlloc));
             }
             "with_capacity" => {
-                self.tabs[t - 1] = None;
+                drop(self.tabs[t - 1].take());
                 self.tabs[t - 1] = Some(HashMap::with_capacity_and_hasher_in(
                     ev.n as usize,
                     PlanBH { pl: ev.j as u8 },
@@ -151,7 +167,7 @@ where
                 ));
             }
             "drop" => {
-                self.tabs[t - 1] = None;
+                drop(self.tabs[t - 1].take());
             }
             "insert" => {
                 let key = K::make(k);
@@ -697,7 +713,7 @@ where
             "clone" => {
                 // table u := clone of table t
                 let c = self.tabs[t - 1].as_ref().unwrap().clone();
-                self.tabs[ev.u - 1] = None;
+                drop(self.tabs[ev.u - 1].take());
                 self.tabs[ev.u - 1] = Some(c);
             }
             "clone_from" => {
